@@ -132,7 +132,7 @@ func (e *Encoder) loopSpecificWrites(body map[*ssa.BasicBlock]bool) (map[string]
 				if fc == nil || !fc.HasMod || len(fc.Modifies) == 0 {
 					continue
 				}
-				env := &Env{c: c, pkg: callee.Pkg.Pkg, vars: map[string]Val{}, mem: func(k, s string) string {
+				env := &Env{c: c, pkg: fnTypesPkg(callee), vars: map[string]Val{}, mem: func(k, s string) string {
 					panic(elabErr{"memory read in modifies expression"})
 				}}
 				names := paramNames(callee, fc)
